@@ -1113,7 +1113,9 @@ def _coalesce_helper_locals(f) -> bool:
         copy_targets = [st.targets[0].id for st in ast.walk(f) if isinstance(st, ast.Assign) and len(st.targets) == 1 and isinstance(st.targets[0], ast.Name)
                         and isinstance(st.value, ast.Name) and st.value.id == y and not _HSUF.match(st.targets[0].id)]
         done = False
-        for x in list(dict.fromkeys(copy_targets + [base])):
+        # (when the result fans out into several of the caller's names, none of them is "the" name of the helper local: the helper's own name is kept)
+        order = copy_targets + [base] if len(set(copy_targets)) == 1 else [base] + copy_targets
+        for x in list(dict.fromkeys(order)):
             if _coalesce_one(f, y, x, allow_plain=(x == base)):
                 changed = done = True
                 break
